@@ -23,8 +23,17 @@ from .. import oracles as O
 SHARDS = {'quick': 4, 'thorough': 16, 'quick_timeout': 900, 'thorough_timeout': 5400}
 
 
-def make_fit_file(ctx, rng, d, n_rec, with_fluxes, n_models=None, many=False, equal_sizes=False):
-    """run the real fit() on a small 2-D or 3-D package; returns (path, kwargs used)"""
+LAST_WRITTEN = []      # via_objects: the records as they were when written (canonical copies + the model names character by character)
+
+
+def exact_names(arr):
+    return [x_.decode() if isinstance(x_, bytes) else str(x_) for x_ in np.asarray(arr).tolist()]
+
+
+def make_fit_file(ctx, rng, d, n_rec, with_fluxes, n_models=None, many=False, equal_sizes=False, via_objects=False):
+    """run the real fit() on a small 2-D or 3-D package; returns (path, kwargs used).
+    via_objects: the records are produced with Fitter.fit and written with FitInfoFile.write (the object interface), after the
+    model names of every other record were edited by hand to carry blanks"""
     from sedfitter import fit
     n_models = n_models or int(rng.integers(2, 9))
     nb = int(rng.integers(2, 5))
@@ -63,6 +72,25 @@ def make_fit_file(ctx, rng, d, n_rec, with_fluxes, n_models=None, many=False, eq
     kw = dict(data=data, filter_names=bn, apertures=theta * u.arcsec, model_dir=d, output=out, n_data_min=1,
               extinction_law=law, av_range=(0.0, 20.0), distance_range=[1.0, 2.0] * u.kpc, output_format=sel,
               output_convolved=with_fluxes)
+    del LAST_WRITTEN[:]
+    if via_objects:
+        from sedfitter.fit import Fitter
+        from sedfitter.fit_info import FitInfoFile
+        from sedfitter.source import Source
+        ft = Fitter(bn, theta * u.arcsec, d, extinction_law=law, av_range=(0.0, 20.0), distance_range=[1.0, 2.0] * u.kpc)
+        fo = FitInfoFile(out, 'w')
+        for i, line in enumerate(open(data).read().splitlines()):
+            info = ft.fit(Source.from_ascii(line))
+            info.keep(sel)
+            if not with_fluxes:
+                info.model_fluxes = None
+            if i % 2 == 0:
+                padded = np.array([('  ' if j_ % 2 else '') + str(x_).strip() + '   ' for j_, x_ in enumerate(info.model_name)])
+                info.model_name = padded.astype(info.model_name.dtype.kind + str(max(len(x_) for x_ in padded)))
+            fo.write(info)
+            LAST_WRITTEN.append((probe.canon_info(info), exact_names(info.model_name)))
+        fo.close()
+        return out, kw
     fit(**{k: v for k, v in kw.items() if k != 'data'}, data=data)
     return out, kw
 
@@ -215,8 +243,15 @@ def read_truncated(path):
     return got, None
 
 
-def judge(ctx, got, exc, full, n_complete, wit, keyp):
-    """yielded records must be records 0..k-1 bit-identically, k <= complete records"""
+def judge(ctx, got, exc, full, n_complete, wit, keyp, names=None):
+    """yielded records must be records 0..k-1 bit-identically, k <= complete records (names: the written model names, compared
+    character by character when the records were written through the object interface)"""
+    if names is not None:
+        for i, g in enumerate(got[:len(names)]):
+            if exact_names(g['model_name']) != names[i]:
+                ctx.violation(keyp + ':altered-record:model-names', 'a yielded record carries other model names than the written one (character by character)',
+                              dict(wit, record=i, written=names[i][:3], read=exact_names(g['model_name'])[:3]))
+                return False
     if len(got) > n_complete:
         ctx.violation(keyp + ':invented-record', 'more records yielded than had been completely written',
                       dict(wit, yielded=len(got), complete=n_complete))
@@ -246,7 +281,7 @@ def run(ctx):
     ctx.assume('a crash leaves a byte prefix of the file' + (' (supported by the strace observation of the thorough tier: only sequential write()s on the output fd, no seek/truncate/rename)' if not ctx.quick else ' (append-only writing is observed by the strace run of the thorough tier, not in this tier)'),
                'the end offset of every record is observed at the writing boundary (position of the output handle after each FitInfoFile.write), so nothing is assumed about the on-disk layout', 'a clean end after fewer records than were complete is an exact prefix and is accepted')
     ctx.require_events('truncated-read:after-another-file-of-the-same-length-under-the-same-name', 'truncated-read', 'outcome:exception', 'outcome:clean-end', 'enospc-run', 'enospc:prefix-on-disk', 'FitInfoFile.write:post')
-    ctx.require_regimes('with-fluxes', 'without-fluxes', 'records=1', 'records>=3', 'cut:before-first-record-complete', 'cut:in-later-record', 'cut:on-boundary',
+    ctx.require_regimes('records:written-through-the-object-interface', 'with-fluxes', 'without-fluxes', 'records=1', 'records>=3', 'cut:before-first-record-complete', 'cut:in-later-record', 'cut:on-boundary',
                         'records:large', 'records:thousands-of-fits', 'records:equal-size', 'enospc:over-an-existing-longer-file', 'enospc:over-another-longer-file', 'enospc:over-an-earlier-run-of-the-same-job')
     n_files = 8 if ctx.quick else 64
     prev_blob = None
@@ -266,13 +301,22 @@ def run(ctx):
             ctx.regime('records:large')
         try:
             eq = ifile % 8 in (2, 3, 7)
-            (path, kw), rec_ends = observed_record_ends(make_fit_file, ctx, frng, d, n_rec, with_fluxes, n_models=nmod, many=False, equal_sizes=eq)
+            via_obj = ifile % 8 == 1          # records written through the object interface, some with hand-edited model names
+            (path, kw), rec_ends = observed_record_ends(make_fit_file, ctx, frng, d, n_rec, with_fluxes, n_models=nmod, many=False, equal_sizes=eq, via_objects=via_obj)
+            written_names = [x_[1] for x_ in LAST_WRITTEN] if via_obj else None
+            written_full = [x_[0] for x_ in LAST_WRITTEN] if via_obj else None
         except Exception as exc:
             ctx.raised(exc, 'fit-raised', 'fit() raised while producing the file: %r' % (exc,), {'n_rec': n_rec})
             continue
         write_marks = [m_ for m_ in COUNT.get('marks', []) if m_ is not None][:2000]
         full = read_all(path)
         size = os.path.getsize(path)
+        if via_obj:
+            # the reference is what was handed to the writer, not what the reader returns for the complete file
+            ctx.regime('records:written-through-the-object-interface')
+            if len(full) == len(written_full):
+                judge(ctx, full, None, written_full, len(written_full), {'file': ifile, 'offset': 'complete file'}, 'complete-file', names=written_names)
+                full = written_full
         if len(full) != n_rec:
             ctx.violation('complete-file:records', 'the complete file does not read back one record per source', {'n_rec': n_rec, 'read': len(full)})
             continue
@@ -328,10 +372,15 @@ def run(ctx):
             ctx.event('outcome:exception' if exc is not None else 'outcome:clean-end')
             ctx.regime('cut:before-first-record-complete' if t < rec_ends[0] else ('cut:on-boundary' if t in rec_ends else 'cut:in-later-record'))
             wit = dict(wit0, offset=t, exception=repr(exc)[:120])
-            judge(ctx, got, exc, full, n_complete, wit, 'truncated')
+            judge(ctx, got, exc, full, n_complete, wit, 'truncated', names=written_names)
             ctx.case((ifile, t), nontrivial=t >= rec_ends[0] // 2,
                      sample=dict(wit, yielded=len(got), complete=n_complete) if (t == rec_ends[0] + 7 and len(ctx.samples) < 2) else None)
 
+        if via_obj:
+            # (the writer-side fault runs below repeat the fit() call: not applicable to records written by hand)
+            prev_blob = open(path, 'rb').read()
+            prev_pack = (prev_blob, full, list(rec_ends))
+            continue
         # ---- ENOSPC after N bytes on the writing side -----------------------------------
         import sedfitter.fit_info as fi
         stride = max(1, size // (12 if ctx.quick else 60))
